@@ -56,6 +56,8 @@ HEnumR  == Enum("u8", <<Var(0, <<U8>>), Var(0, <<U8>>), Var(1, <<U8>>)>>)       
 \*               "sink"  fn m(&self, s: &mut dyn Sink, x: T) -> T   with  trait Sink { fn put(&mut self, r: T) -> T }
 \*               "fn"    fn m(&self, f: &dyn Fn(T) -> T, x: T) -> T
 \*               the implementation hands x to the caller's object / closure and returns what comes back
+\*               "fut"   fn m(&self, x: T) -> Pin<Box<dyn Future<Output = T>>>   the call returns a boxed future (a nested trait object of
+\*                       the implementation); the value crosses the boundary when the caller POLLS it, again at the effective version
 M(name, from, to, args, ret, refs) == [name |-> name, from |-> from, to |-> to, args |-> args, ret |-> ret, refs |-> refs,
                                        chg |-> 0, chgty |-> U8, kind |-> "plain"]
 MN(name, kind, ty) == [M(name, 0, INF, <<ty>>, ty, {}) EXCEPT !.kind = kind]
@@ -76,7 +78,8 @@ FamilyA == << M("add", 0, INF, <<U32, U32>>, U32, {}),
               M("resm", 0, INF, <<U8>>, Res(HAdd, Str), {}),               \* Result with an evolving Ok type
               M("optm", 0, INF, <<Opt(HAdd)>>, Opt(HRem), {}),            \* Option of evolving types, both directions
               M("vecref", 0, INF, <<HNest>>, U16, {1}),                   \* a Vec of an evolving struct passed by reference
-              MN("sink", "sink", HAdd), MN("sinkmid", "sink", HAddMid), MN("viafn", "fn", HAdd), MN("viafnrem", "fn", HRem) >>
+              MN("sink", "sink", HAdd), MN("sinkmid", "sink", HAddMid), MN("viafn", "fn", HAdd), MN("viafnrem", "fn", HRem),
+              MN("later", "fut", HAdd), MN("laterrem", "fut", HRem), MN("latermid", "fut", HAddMid) >>
 FamilyB == << M("add", 0, INF, <<U32, U32>>, U32, {}),
               [M("changed", 0, INF, <<U32>>, U8, {}) EXCEPT !.chg = 2, !.chgty = Str],
               [M("count", 0, INF, <<U8>>, U8, {}) EXCEPT !.chg = 1, !.chgty = Tup(<<U8, U8>>)] >>
@@ -196,14 +199,14 @@ Transfer ==
     /\ UNCHANGED <<fam, i, j, eff, connected, mname, args, ret, got, outcome, nseen>>
 \* the implementation returns one of its values (which must be expressible at the effective version)
 Invoke ==
-    /\ pc = "invoking" /\ Caller.kind = "plain"
+    /\ pc = "invoking" /\ Caller.kind \in {"plain", "fut"}
     /\ \E r \in Passable(RetAt(Callee[1], j), eff) : ret' = r
-    /\ pc' = "returning"
+    /\ pc' = IF Caller.kind = "fut" THEN "future" ELSE "returning"      \* (a future: nothing has been transferred back yet)
     /\ UNCHANGED <<fam, i, j, eff, connected, mname, args, seen, got, outcome, nseen>>
 \* the implementation calls back into the caller's object / closure with what it received, and returns what comes back:
 \* two more transfers at the effective version, in the opposite and then again in the forward direction
 InvokeNested ==
-    /\ pc = "invoking" /\ Caller.kind # "plain"
+    /\ pc = "invoking" /\ Caller.kind \in {"sink", "fn"}
     /\ LET tc == ArgAt(Caller, 1, i)  ti == ArgAt(Callee[1], 1, j)
            toCaller == Dec(tc, Enc(ti, seen[1], eff), 0, eff).v
            back == Dec(ti, Enc(tc, toCaller, eff), 0, eff).v IN
@@ -211,13 +214,18 @@ InvokeNested ==
        /\ ret' = back
     /\ pc' = "returning"
     /\ UNCHANGED <<fam, i, j, eff, connected, mname, args, seen, got, outcome>>
+\* the caller polls the boxed future it was handed: a call of the implementation's future object through its own (helper) interface
+Poll ==
+    /\ pc = "future"
+    /\ pc' = "returning"
+    /\ UNCHANGED <<fam, i, j, eff, connected, mname, args, seen, ret, got, outcome, nseen>>
 \* SerRet . Receive
 Return ==
     /\ pc = "returning"
     /\ got' = Dec(RetAt(Caller, i), Enc(RetAt(Callee[1], j), ret, eff), 0, eff).v
     /\ outcome' = "returned" /\ pc' = "done"
     /\ UNCHANGED <<fam, i, j, eff, connected, mname, args, seen, ret, nseen>>
-Next == InterrogateVersion \/ InterrogateMethods \/ Analyze \/ CallBegin \/ Missing \/ Transfer \/ Invoke \/ InvokeNested \/ Return
+Next == InterrogateVersion \/ InterrogateMethods \/ Analyze \/ CallBegin \/ Missing \/ Transfer \/ Invoke \/ InvokeNested \/ Poll \/ Return
 Spec == Init /\ [][Next]_vars
 
 (* ------------------------------------------------------------------ *)
@@ -242,7 +250,7 @@ IncompatibleRejected ==
 \* nested interfaces and closures: every hop is a transfer at the effective version (Move), so that equal versions give identity
 Move(D, a, b, v) == LET e == IF a < b THEN a ELSE b IN Load(D, e, b, Down(D, a, e, v))
 NestedTransparent ==
-    (outcome = "returned" /\ Caller.kind # "plain") =>
+    (outcome = "returned" /\ Caller.kind \in {"sink", "fn"}) =>
         /\ nseen = Move(Caller.args[1], j, i, seen[1])
         /\ ret = Move(Caller.args[1], i, j, nseen)
         /\ (i = j => nseen = args[1] /\ got = args[1])
